@@ -1229,6 +1229,8 @@ pub struct ScriptInner {
     /// polls that happened after the stream had returned None (not allowed for non-fused streams)
     pub polls_after_end: usize,
     returned_end: bool,
+    /// how many more times the stream wakes its own waker from inside a poll that returns Pending
+    pub wake_in_poll: usize,
 }
 
 pub struct ScriptedStream {
@@ -1248,7 +1250,7 @@ pub struct StreamCtl {
 }
 
 pub fn scripted_stream(preloaded: &[u32]) -> (ScriptedStream, StreamCtl) {
-    let inner = Arc::new(StdMutex::new(ScriptInner { items: preloaded.iter().cloned().collect(), ended: false, waker: None, polls: 0, eager_waker: false, polls_after_end: 0, returned_end: false }));
+    let inner = Arc::new(StdMutex::new(ScriptInner { items: preloaded.iter().cloned().collect(), ended: false, waker: None, polls: 0, eager_waker: false, polls_after_end: 0, returned_end: false, wake_in_poll: 0 }));
     let drops = Arc::new(AtomicUsize::new(0));
     let chan_lock = Arc::new(vsched::sync::Mutex::new(()));
     let wake_locked = Arc::new(std::sync::atomic::AtomicBool::new(false));
@@ -1286,12 +1288,22 @@ impl futures::Stream for ScriptedStream {
             Poll::Ready(None)
         } else {
             g.waker = Some(cx.waker().clone());
+            if g.wake_in_poll > 0 {
+                // the event source fires synchronously, from inside poll_next (the registration stays in place)
+                g.wake_in_poll -= 1;
+                drop(g);
+                cx.waker().wake_by_ref();
+            }
             Poll::Pending
         }
     }
 }
 
 impl StreamCtl {
+    /// The next `k` polls that find nothing wake the registered waker from inside `poll_next` itself
+    pub fn set_wake_in_poll(&self, k: usize) {
+        self.inner.lock().unwrap().wake_in_poll = k;
+    }
     /// From now on the producer side wakes the consumer while holding the channel's lock (the `lock(); ...; waker.wake()`
     /// pattern), and the stream's destructor takes the same lock
     pub fn set_wake_locked(&self) {
